@@ -54,11 +54,12 @@ enum Kind {
     H_OOM_SET, H_OOM_COUNTDOWN /* a count */, H_OOM_CLEAR,
     H_REPORT,       // a period: report() without clearing the buffer first (C14)
     H_STASH,        // GlobalMemoryAllocatorStash save() ... restore() around nothing: the current allocators must come back unchanged
+    H_MODE,         // overload mode history: a 0 = off then on again, 1 = save+disable then restore, 2 = switch between the thread-safe and the default overloads
     H_SSB,          // free-standing SimpleStringBuffer op: a kind (0 add text of length b, 1 memory dump of b bytes, 2 setWriteLimit b, 3 resetWriteLimit, 4 clear)
     H_COUNT
 };
 static const char* const kNames[H_COUNT] = { "none", "alloc", "free", "realloc", "enable", "disable", "start_checking", "stop_checking", "mark", "stage_inc", "stage_dec", "stage_free",
-    "clear_accounting", "query", "flip", "bad_free", "fault", "typecheck", "wrap", "calloc", "strdup", "designate_n", "designate_at", "check_done", "clear_fails", "oom_set", "oom_countdown", "oom_clear", "report", "stash", "ssb" };
+    "clear_accounting", "query", "flip", "bad_free", "fault", "typecheck", "wrap", "calloc", "strdup", "designate_n", "designate_at", "check_done", "clear_fails", "oom_set", "oom_countdown", "oom_clear", "report", "stash", "mode", "ssb" };
 static const char* kindName(int k) { return k >= 0 && k < H_COUNT ? kNames[k] : "none"; }
 static int kindFromName(const char* s) { for (int i = 0; i < H_COUNT; i++) if (!strcmp(s, kNames[i])) return i; return H_NONE; }
 
@@ -320,7 +321,8 @@ struct Engine : public vf::Engine {
                 else if (x < 82) { static const int ks[] = { H_ENABLE, H_DISABLE, H_START, H_STOP, H_MARK, H_STAGE_INC, H_STAGE_DEC }; o.kind = ks[w.below(7)]; }
                 else if (x < 85) o.kind = H_STAGE_FREE;
                 else if (x < 88) { o.kind = H_CLEAR; o.a = (int64_t)w.below(4); }
-                else if (x < 97) { o.kind = H_QUERY; o.a = (int64_t)w.below(4); o.b = (int64_t)w.chance(1, 3); }
+                else if (x < 96) { o.kind = H_QUERY; o.a = (int64_t)w.below(4); o.b = (int64_t)w.chance(1, 3); }
+                else if (x < 97) { o.kind = H_MODE; o.a = (int64_t)w.below(3); }
                 else if (!faultFree) { if (w.chance(1, 2)) { o.kind = H_BADFREE; o.a = w.range(1, 4); o.b = (int64_t)w.below(3); o.c = (int64_t)w.below((uint64_t)nSlots); } else { o.kind = H_FAULT; unsigned z = (unsigned)w.below(5); o.a = z < 2 ? 0 : (z < 4 ? 2 : 3); o.b = (int64_t)w.below(3); } }      // allocator returns NULL, or the platform realloc fails: the old block keeps its period, stage and number
                 else o.kind = H_QUERY;
             } else if (snd) {
@@ -331,7 +333,8 @@ struct Engine : public vf::Engine {
                 else if (x < 55) { o.kind = H_STRDUP; o.a = (int64_t)w.below((uint64_t)nSlots); o.c = w.small(0, 300); o.b = w.chance(1, 2) ? -1 : (int64_t)(w.chance(1, 2) ? (uint64_t)o.c + (uint64_t)w.range(0, 3) - 1 : (uint64_t)w.small(0, 400)); if (o.b < -1) o.b = 0; if (w.chance(1, 8)) o.b = -2 - (int64_t)w.below(4); }      // n = SIZE_MAX, SIZE_MAX-1, ...
                 else if (x < 68) { o.kind = H_REALLOC; o.a = (int64_t)w.below((uint64_t)nSlots); o.c = (int64_t)(w.chance(4, 5) ? (size_t)w.small(0, 3000) : boundarySize(w)); }
                 else if (x < 88) { o.kind = H_FREE; o.a = (int64_t)w.below((uint64_t)nSlots); o.c = w.chance(1, 3) ? w.range(1, 4) : 0; }
-                else if (x < 92) { o.kind = H_QUERY; o.a = (int64_t)w.below(4); }
+                else if (x < 91) { o.kind = H_QUERY; o.a = (int64_t)w.below(4); }
+                else if (x < 92) { o.kind = H_MODE; o.a = (int64_t)w.below(3); }
                 else if (!faultFree) { o.kind = H_FAULT; o.a = (int64_t)w.below(4); o.b = o.a == 3 && w.chance(2, 3) ? 2 : (int64_t)w.below(3); }
                 else o.kind = H_QUERY;
             } else if (mis) {
@@ -340,7 +343,7 @@ struct Engine : public vf::Engine {
                 else if (x < 78) { o.kind = H_FREE; o.a = (int64_t)w.below((uint64_t)nSlots); o.b = w.chance(2, 3) ? 0 : w.range(1, 3); o.c = w.chance(1, 3) ? w.range(1, 4) : 0; }
                 else if (x < 84) { o.kind = H_BADFREE; o.a = (int64_t)w.below(5); o.b = (int64_t)w.below(3); o.c = (int64_t)w.below(600); o.phase = (int)w.below(3) == 2 ? 2 : 0; }
                 else if (x < 87) { o.kind = H_TYPECHECK; o.a = (int64_t)w.below(2); }
-                else if (x < 88) o.kind = H_STASH;
+                else if (x < 88) { if (w.chance(1, 2)) o.kind = H_STASH; else { o.kind = H_MODE; o.a = (int64_t)w.below(3); } }
                 else if (x < 94) { o.kind = H_WRAP; o.a = (int64_t)w.below(3); static const int wk[] = { 0, 0, 1, 2, 3, 5, 5, 6, 6 }; o.b = wk[w.below(9)]; }
                 else if (x < 97) { o.kind = H_REALLOC; o.a = (int64_t)w.below((uint64_t)nSlots); o.c = w.small(0, 100); if (w.chance(1, 8)) o.c = (int64_t)(SIZE_MAX - (size_t)w.below(200)); else if (w.chance(1, 5)) o.c = -1; }      // some refused (overflowing) requests: the block must stay what it was; some requests for the size the block already has
                 else { o.kind = H_QUERY; o.a = (int64_t)w.below(4); }
@@ -375,6 +378,7 @@ struct Engine : public vf::Engine {
         MBlock slots[N_SLOTS];
         int period; unsigned char stage; unsigned seq; bool typecheck;
         TestMemoryAllocator* famAllocator[3];     // allocators used on the direct route (and installed as current on the global route)
+        bool threadsafeNow;
         Vec<SimAllocator*> wrappers; FailableMemoryAllocator* failable;
         Vec<AccountingTestMemoryAllocator*> acct; Vec<TestMemoryAllocator*> acctBase; MemoryAccountant* accountant;     // real accounting decorators (may be nested) and, per decorator, the family allocator the model says is underneath
         Vec<char*> stale;
@@ -532,6 +536,7 @@ struct Engine : public vf::Engine {
         CTX.bufBase = const_cast<char*>(det.report(mem_leak_period_checking));   // learn the buffer's address, then clear it
         det.startChecking(); det.disable();
         FailableMemoryAllocator failable("Failable", "falloc", "ffree");
+        W.threadsafeNow = d.pi("threadsafe") != 0;
         if (d.pi("threadsafe")) { MemoryLeakWarningPlugin::turnOnThreadSafeNewDeleteOverloads(); fired("threadsafe_overloads_single_thread"); }
 
         static const Group noHistory;
@@ -857,6 +862,13 @@ struct Engine : public vf::Engine {
             case H_OOM_COUNTDOWN: cpputest_malloc_set_out_of_memory_countdown((int)o.a); W.oomCountdown = (int)o.a; if (o.a == 0) W.oomAll = true; fired("c_out_of_memory_countdown"); break;
             case H_OOM_CLEAR: if (W.oomAll || W.oomCountdown >= 0) { cpputest_malloc_set_not_out_of_memory(); W.oomAll = false; W.oomCountdown = -1; for (int k = 2; k < 3; k++) if (W.failableFor[k]) setCurrentMallocAllocator(&failable); } break;
             case H_STASH: { GlobalMemoryAllocatorStash st; st.save(); st.restore(); probe("allocator_stash_round_trip"); break; }
+            case H_MODE: {      // nothing is allocated or released in between: every block stays tracked, every later call is tracked again
+                if (o.a == 0) { MemoryLeakWarningPlugin::turnOffNewDeleteOverloads(); if (W.threadsafeNow) MemoryLeakWarningPlugin::turnOnThreadSafeNewDeleteOverloads(); else MemoryLeakWarningPlugin::turnOnDefaultNotThreadSafeNewDeleteOverloads(); }
+                else if (o.a == 1) { MemoryLeakWarningPlugin::saveAndDisableNewDeleteOverloads(); MemoryLeakWarningPlugin::restoreNewDeleteOverloads(); }
+                else { W.threadsafeNow = !W.threadsafeNow; if (W.threadsafeNow) MemoryLeakWarningPlugin::turnOnThreadSafeNewDeleteOverloads(); else MemoryLeakWarningPlugin::turnOnDefaultNotThreadSafeNewDeleteOverloads(); }
+                fired("overload_mode_history");
+                break;
+            }
             case H_SSB: {
                 char text[800]; size_t n = (size_t)o.b < sizeof text - 1 ? (size_t)o.b : sizeof text - 1; memset(text, 'q', n); text[n] = 0;
                 if (o.a == 0) ssb.add("%s", text); else if (o.a == 1) ssb.addMemoryDump(text, n); else if (o.a == 2) ssb.setWriteLimit((size_t)o.b); else if (o.a == 3) ssb.resetWriteLimit(); else ssb.clear();
